@@ -633,8 +633,11 @@ fn run_script_inner(s0: &Script, ip: &str) -> Vec<Fail> {
             }
             Step::Request(r) => {
                 let bytes = render_request(r, i);
-                if closed_at.is_some() && !lenient {
-                    // probe on a connection the model says is closed: must not be answered
+                if (closed_at.is_some() && !lenient) || r.malformed.is_some() {
+                    // probe on a connection the model says is closed: must not be answered.
+                    // malformed requests go out in one piece: the server answers 400 and closes as soon as it sees the
+                    // fault, and closing with unread bytes pending makes the kernel reset the connection, which can
+                    // destroy the 400 before the client reads it
                     let _ = client.stream.write_all(&bytes);
                 } else {
                     client.write_segments(&bytes, &s.seg, &mut rng);
@@ -657,7 +660,8 @@ fn run_script_inner(s0: &Script, ip: &str) -> Vec<Fail> {
         }
         // read responses for everything pending
         for j in pending.drain(..).collect::<Vec<_>>() {
-            let lenient_j = lenient_from.map_or(false, |l| j > l);
+            // the response to the request right before a pipelined boundary is exposed to the same reset as the tail
+            let lenient_j = lenient_from.map_or(false, |l| j >= l);
             if lenient_j {
                 // handled after the loop (the whole tail is read to EOF)
                 continue;
@@ -950,7 +954,7 @@ fn arb_req() -> impl Strategy<Value = Req> {
         ),
         0u8..4,
     )
-        .prop_map(|(method, target, conn, http10, body, malformed, extra_headers)| Req { method: method.to_string(), target, conn, http10, body, malformed, extra_headers })
+        .prop_map(|(method, target, conn, http10, body, malformed, extra_headers)| Req { method: method.to_string(), target, conn, http10, body: if malformed.is_some() { None } else { body }, malformed, extra_headers })
 }
 
 pub fn arb_script() -> impl Strategy<Value = Script> {
